@@ -102,7 +102,12 @@ def run(label, spec, H0f, Vf, maxn, cut, patterns=None):
     d = {n: o for (k, n), o in zip(spec, ops)}; lam = sympy.Symbol('lambda', real=True)
     H0 = H0f(d); V = Vf(d); ph = [_number_operator_to_placeholder(NumberOperator(o)) for o in ops]
     kw = {}
-    if patterns is not None:
+    sym_min = None
+    if isinstance(patterns, dict):
+        # symbolic powers: a**(k + m) + Dagger(a)**(k + m) on the first mode = every shift of that mode by m or more quanta (the others untouched)
+        sym_min = patterns["min_shift"]; kk = sympy.Symbol("k", integer=True, nonnegative=True); o = ops[0]
+        kw["fully_diagonalize"] = sympy.Matrix([[o ** (kk + sym_min) + Dagger(o) ** (kk + sym_min)]]); patterns = "symbolic"
+    elif patterns is not None:
         patterns = {tuple(p[spec0.index(m)] for m in spec) for p in patterns}          # (modes are re-ordered above)
         def word(p):
             t = sympy.S.One
@@ -141,7 +146,8 @@ def run(label, spec, H0f, Vf, maxn, cut, patterns=None):
         sel = np.zeros_like(elim)
         for i_, s_ in enumerate(states_all):
             for j_, t_ in enumerate(states_all):
-                if tuple(a_ - b_ for a_, b_ in zip(s_, t_)) in patterns: sel[i_, j_] = True      # <s| term |t> raises by s - t
+                sh = tuple(a_ - b_ for a_, b_ in zip(s_, t_))
+                if (sh in patterns) if sym_min is None else (abs(sh[0]) >= sym_min and not any(sh[1:])): sel[i_, j_] = True      # <s| term |t> raises by s - t
         elim = elim & sel
     rHt, rU, rUi = reference({(0,): H0m, (1,): Vm}, elim, (maxn,))
     low = [i for i, s in enumerate(states_all) if all(abs(x) <= 2 for x in s)]
@@ -168,7 +174,10 @@ def main(seed, ncases, driver, out):
             for _ in range(prnd.randint(1, 3)):
                 pt = tuple(prnd.choice([0, 0, 1, -1, 2]) if k in 'bl' else prnd.choice([0, 1, -1]) for k, _n in spec)
                 if any(pt): patterns |= {pt, tuple(-x for x in pt)}
-            if not patterns: patterns = None
+            if spec[0][0] == 'b' and sorted(spec, key=lambda m: (ORDER[m[0]], m[1]))[0] == spec[0] and prnd.random() < 0.4:
+                patterns = {"min_shift": prnd.choice([1, 2])}; label += " | mask a**(k+%d) + h.c." % patterns["min_shift"]
+                dist["with a symbolic-power mask"] = dist.get("with a symbolic-power mask", 0) + 1
+            elif not patterns: patterns = None
             else: label += " | mask " + str(sorted(patterns)); dist["with an operator-valued mask"] = dist.get("with an operator-valued mask", 0) + 1
         try:
             res = run(label, spec, H0f, Vf, 3, cut, patterns)
